@@ -57,6 +57,21 @@ def run(ctx):
     cex, res = af.tlc_cex(ctx, "MC_Agent_bad_norecheck.cfg", "bad_norecheck")
     if cex:
         scs.append(af.scenario_from_cex(cex, "cex-stale-upgrade", "local"))
+    # the same interleaving with a record stamped in the current second, and with a writer beside the agent between login and
+    # upgrade: the verdict afterwards is that of the most recent successful write
+    up1 = {"u1": {"present": True, "pw": "p1", "set": 1, "adm": False}, "u2": {"present": True, "pw": "p2", "set": 2, "adm": True}}
+    for i in range(2):
+        scs.append({"name": "stale-upgrade-same-second-%d" % i, "mode": "local", "default": 2, "files": up1, "passwords": af.PASSWORDS, "gated": True,
+                    "seed": 1, "forced": False, "filler": 0, "novalidate": True,
+                    "steps": [{"t": "stampnow", "u": "u1"}, {"t": "send", "c": "c2", "k": "auth", "u": "u1", "p": "p1", "a": False}, {"t": "recv"},
+                              {"t": "send", "c": "c1", "k": "update", "u": "u1", "p": "p2", "a": False}, {"t": "upsend"}, {"t": "recv"}, {"t": "recv"},
+                              {"t": "free"}],
+                    "expect_idle": {"u1": {"set": 2, "pw": "p2", "adm": False}}, "expect_prop": "C01", "expect_key": "last-write-undone:same-second"})
+    scs.append({"name": "upgrade-overtaken-by-external-writer", "mode": "local", "default": 2, "files": up1, "passwords": af.PASSWORDS, "gated": True,
+                "seed": 1, "forced": False, "filler": 0, "novalidate": True,
+                "steps": [{"t": "send", "c": "c1", "k": "auth", "u": "u1", "p": "p1", "a": False}, {"t": "recv"}, {"t": "upsend"},
+                          {"t": "extupdate", "u": "u1", "p": "p2"}, {"t": "recv"}, {"t": "free"}],
+                "expect_idle": {"u1": {"set": 2, "pw": "p2", "adm": False}}, "expect_prop": "C01", "expect_key": "last-write-undone:external-writer"})
     sims = af.simulated_scenarios(ctx, 16 if not thorough else 150)
     for i, sc in enumerate(sims):
         if i % 2:
